@@ -358,6 +358,30 @@ GenCfg pick_cfg(Rng & r, bool cheap_only)
   return c;
 }
 
+/// the same transition with another window / post-generation operation (or a neighbouring level):
+/// what a cache keyed on too few fields would confuse
+GenCfg variant_of(Rng & r, const GenCfg & c0)
+{
+  GenCfg c = c0;
+  if (c.cat == 1) {
+    const DbdEntry * e = nullptr;
+    for (auto & x : dbd_catalogue()) if (x.nuc == c.nuc && x.level == c.level && x.mode == c.mode) { e = &x; break; }
+    u64 d = r.below(10);
+    if (e && mode_supports_window(c.mode) && d < 6) {
+      c.emin_keV = c.emax_keV = -1;
+      if (c0.emin_keV < 0 && c0.emax_keV < 0) pick_window(r, *e, c);      // windowed twin of a full-range one
+      else if (r.chance(0.5)) pick_window(r, *e, c);                       // another window (else: full range)
+    } else if (d < 8) {
+      std::vector<const DbdEntry *> alt;
+      for (auto & x : dbd_catalogue()) if (x.nuc == c.nuc && (x.level != c.level || x.mode != c.mode) && x.init_us < 3000) alt.push_back(&x);
+      if (!alt.empty()) { const DbdEntry * a = r.pick(alt); c.level = a->level; c.mode = a->mode; c.emin_keV = c.emax_keV = -1; }
+    } else c.mdl = (c0.mdl == 0) ? (int)r.range(1, mdl_presets()) : 0;
+  } else {
+    c.mdl = (c0.mdl == 0) ? (int)r.range(1, mdl_presets()) : 0;
+  }
+  return c;
+}
+
 Op op_cfg(int g, const GenCfg & c)
 {
   Op o; o.k = "cfg"; o.a = {g, c.cat, c.level, c.mode, c.emin_keV, c.emax_keV, c.mdl}; o.s = {c.nuc};
@@ -390,7 +414,7 @@ Plan gen_hist(u64 seed, u64 idx, const RunCtx & ctx)
   std::vector<GenCfg> cfgs;
   for (int g = 0; g < ng; g++) {
     // instances often share a configuration: that is where cross-instance state would show
-    if (g > 0 && r.chance(0.4)) cfgs.push_back(cfgs[0]);
+    if (g > 0 && r.chance(0.45)) cfgs.push_back(r.chance(0.5) ? cfgs[0] : variant_of(r, cfgs[0]));
     else cfgs.push_back(pick_cfg(r, cheap));
   }
   std::vector<i64> streams;
